@@ -106,6 +106,104 @@ def user_op(src):
 
 
 # ------------------------------------------------------------------------------------------------
+# lazily created singletons (MPI_Op per Generic_MPI_Op instantiation, MPI_Datatype per MPITraits instantiation)
+# ------------------------------------------------------------------------------------------------
+def split_top(text, sep=","):
+    depth, cur, parts = 0, "", []
+    for c in text:
+        if c in "<([":
+            depth += 1
+        elif c in ">)]":
+            depth -= 1
+        if c == sep and depth == 0:
+            parts.append(cur)
+            cur = ""
+        else:
+            cur += c
+    parts.append(cur)
+    return [q for q in (x.strip() for x in parts) if q]
+
+
+def template_params(header):
+    """'typename Type, typename BinaryFunction, typename Enable=void' -> ['Type', 'BinaryFunction', 'Enable']"""
+    names = []
+    for prm in split_top(header):
+        prm = prm.split("=")[0].strip()
+        m = re.search(r"(%s)\s*$" % IDENT_, prm)
+        if not m:
+            raise TranslateError("template parameter not recognised: %r" % prm)
+        names.append(m.group(1))
+    return names
+
+
+IDENT_ = r"[A-Za-z_]\w*"
+
+
+def idents(text):
+    return set(re.findall(IDENT_, text))
+
+
+def singleton_rows(sources):
+    """one row (family, slot, used) per class template MPITraits<...> / Generic_MPI_Op<...> that creates a handle lazily:
+    family = class name + argument pattern with the template parameters numbered $1, $2, ...;
+    slot   = positions of the template parameters that select the static storage holding the handle;
+    used   = positions of the template parameters that occur in the class body / the out-of-class getter."""
+    rows = []
+    for src0 in sources:
+        src = re.sub(r"\\\n", " ", src0)          # macro continuation lines
+        for m in re.finditer(r"template\s*<([^{};]*?)>\s*(?:struct|class)\s+(MPITraits|Generic_MPI_Op)\s*(<[^{};]*>)?\s*\{", src):
+            header, cname, spec = m.group(1), m.group(2), m.group(3)
+            if not header.strip():
+                continue                              # explicit specialisation (ComposeMPITraits): no template parameter, no state
+            params = template_params(header)
+            start = m.end() - 1
+            body = src[start + 1:balanced(src, start) - 1]
+            getter = "getType" if cname == "MPITraits" else "get"
+            spec_n = re.sub(r"\s+", "", spec) if spec else "<" + ",".join(params) + ">"
+            gm = re.search(r"\b%s\s*\(\s*\)\s*\{" % getter, body)
+            if gm:
+                gbody = body[gm.end():balanced(body, gm.end() - 1) - 1]
+                outside = ""
+            else:
+                gbody = None
+                for om in re.finditer(r"\b%s\s*(<[^{};()]*>)\s*::\s*%s\s*\(\s*\)\s*\{" % (cname, getter), src):
+                    if re.sub(r"\s+", "", om.group(1)) == spec_n:
+                        gbody = src[om.end():balanced(src, om.end() - 1) - 1]
+                if gbody is None:
+                    raise TranslateError("%s%s: definition of %s() not found" % (cname, spec_n, getter))
+                outside = gbody
+            flat = re.sub(r"\s+", " ", gbody).strip()
+            if re.fullmatch(r"return %s ?;" % IDENT_, flat) and not re.search(r"\bstatic\b[^;(]*\b%s\s*;" % flat.split()[1].rstrip(";"), body):
+                continue                              # returns a predefined handle (ComposeMPIOp): no state
+            hm = re.search(r"if ?\( ?! ?(%s) ?\)|if ?\( ?(%s) ?== ?MPI_DATATYPE_NULL ?\)" % (IDENT_, IDENT_), flat)
+            if not hm:
+                raise TranslateError("%s%s::%s(): no `if (!handle)` / `if (handle == MPI_DATATYPE_NULL)` test: %s" % (cname, spec_n, getter, flat[:160]))
+            var = hm.group(1) or hm.group(2)
+            if not re.search(r"return \*? ?%s ?; ?$" % var, flat):
+                raise TranslateError("%s%s::%s() does not end in `return %s;`" % (cname, spec_n, getter, var))
+            decl = r"static\s+(?:inline\s+)?(?:MPI_Datatype|std::unique_ptr\s*<\s*MPI_Op\s*>)\s+%s\b" % var
+            body_wo_getter = body if not gm else body[:gm.start()] + body[balanced(body, gm.end() - 1):]
+            if re.search(decl, body_wo_getter) or re.search(decl, gbody):
+                slot = list(params)                   # static data member / function-local static: one per instantiation
+            else:
+                vm = re.search(r"auto\s*&\s*%s\s*=\s*[\w:]+\s*<([^;]*)>\s*;" % var, gbody)
+                if not vm:
+                    raise TranslateError("%s%s::%s(): storage of the handle `%s` not recognised" % (cname, spec_n, getter, var))
+                args = idents(vm.group(1))
+                slot = [q for q in params if q in args]   # variable template: one per argument list
+            used_ids = idents(body) | idents(outside)
+            used = [q for q in params if q in used_ids]
+            fam = cname + spec_n
+            for k, q in enumerate(params):
+                fam = re.sub(r"\b%s\b" % re.escape(q), "$%d" % (k + 1), fam)
+            pos = {q: str(k + 1) for k, q in enumerate(params)}
+            rows.append((fam, [pos[q] for q in slot], [pos[q] for q in used]))
+    if not rows:
+        raise TranslateError("no lazily created MPI handle found")
+    return rows
+
+
+# ------------------------------------------------------------------------------------------------
 # the sequential stand-in
 # ------------------------------------------------------------------------------------------------
 def class_body(src):
@@ -298,6 +396,8 @@ def translate(repo):
     traits_src = strip_comments(open(os.path.join(par, "mpitraits.hh")).read())
     comm_src = strip_comments(open(os.path.join(par, "mpicommunication.hh")).read())
     seq_src = strip_comments(open(os.path.join(par, "communication.hh")).read())
+    plocal_src = strip_comments(open(os.path.join(par, "plocalindex.hh")).read())
+    remote_src = strip_comments(open(os.path.join(par, "remoteindices.hh")).read())
 
     out = ["import DuneVerif.Model.C07",
            "-- GENERATED by tools/translators/tr_c07.py from dune/common/parallel/{mpitraits,mpicommunication,communication}.hh"
@@ -321,6 +421,14 @@ def translate(repo):
             "/-- the MPI callback computes `<target>[i] = func(<args.0>[i], <args.1>[i])` -/",
             "def userOpArgs : List String := [%s]" % ", ".join(lean_str(a) for a in args),
             "def userOpTarget : String := %s" % lean_str(target),
+            "",
+            "/-- class templates that create an MPI handle lazily (`if (!handle) handle = create(); return handle;`): template",
+            "parameters (by position) that select the static storage of the handle / that occur in the creating code -/",
+            "def singletonTable : List DV.C07.Reg.Row := ["]
+    srows = singleton_rows([comm_src, traits_src, plocal_src, remote_src])
+    out += ["  ⟨%s, [%s], [%s]⟩%s" % (lean_str(f), ", ".join(lean_str(x) for x in sl), ", ".join(lean_str(x) for x in us),
+                                  "," if k + 1 < len(srows) else "") for k, (f, sl, us) in enumerate(srows)]
+    out += ["]",
             "",
             "/-! ### `Communication<No_Comm>` (primary template in communication.hh), body by body -/",
             "namespace Seq",
